@@ -1,4 +1,6 @@
 """C18 - logqp returns the path-wise KL integrand and does not disturb the solution (E1: real sdeint(..., logqp=True))."""
+from fractions import Fraction
+
 import numpy as np
 import torch
 import z3
@@ -25,13 +27,14 @@ class WithPrior(torch.nn.Module):
         if self.c is None:
             return self.base.h(t, y)
         g = self.base.g(t, y)
-        gc = g * self.c if self.noise_type == 'diagonal' else torch.bmm(g, self.c.unsqueeze(-1)).squeeze(-1)
+        gc = g * self.c if self.noise_type == 'diagonal' else torch.bmm(g, self.c.expand(g.shape[0], -1).unsqueeze(-1)).squeeze(-1)
         return self.base.f(t, y) - gc
 
 
 def scenario(task):
     import torchsde
-    st, method, nt, opts, d, m, mode = task
+    st, method, nt, opts, d, m, mode = task[:7]
+    NB = task[7] if len(task) > 7 else 1          # batch size
     mm = e1.noise_dim(nt, d, m)
     ts = [0.0, 0.1, 0.2]
     tst = torch.tensor(ts, dtype=torch.float64)
@@ -41,17 +44,17 @@ def scenario(task):
         base = sdes.PolySDE(mk, st, nt, d=d, m=mm, degt=1, degy=1 if mode == 'const' else 2, with_h=True)
         c = mk('cc', (1, mm), values=0.4 - 0.3 * np.arange(mm).reshape(1, mm)) if mode == 'const' else None
         sde = WithPrior(base, c)
-        y0 = mk('y0', (1, d), values=0.6 + 0.1 * np.arange(d).reshape(1, d))
+        y0 = mk('y0', (NB, d), values=0.6 + 0.1 * np.arange(NB * d).reshape(NB, d))
         # with logqp the state has one more channel: a diagonal-noise Brownian motion needs one more channel too
         return mk, sde, y0, c
     mk, sde, y0, c = build()
-    bm_l = sdes.KeyedBM(mk, 1, mm + (1 if nt == 'diagonal' else 0), levy=sdes.levy_for(method))
+    bm_l = sdes.KeyedBM(mk, NB, mm + (1 if nt == 'diagonal' else 0), levy=sdes.levy_for(method))
     out = torchsde.sdeint(sde, y0, tst, bm=bm_l, method=method, dt=0.1, options=dict(opts), logqp=True)
     ys, lq = out
     validate(ys, mk.env, 1e-7); validate(lq, mk.env, 1e-7)
     notes = []
-    if tuple(lq.shape) != (len(ts) - 1, 1):
-        notes.append(f'logqp output has shape {tuple(lq.shape)}, expected {(len(ts) - 1, 1)}')
+    if tuple(lq.shape) != (len(ts) - 1, NB):
+        notes.append(f'logqp output has shape {tuple(lq.shape)}, expected {(len(ts) - 1, NB)}')
     Zc = e1.Z()
     bad = []
     n = 0
@@ -59,7 +62,7 @@ def scenario(task):
     mk2, sde2, y02, _ = build()
 
     class Narrow:
-        def __init__(s, bm): s.bm = bm; s.shape = (1, mm); s.dtype = bm.dtype; s.device = bm.device; s.levy_area_approximation = bm.levy_area_approximation
+        def __init__(s, bm): s.bm = bm; s.shape = (NB, mm); s.dtype = bm.dtype; s.device = bm.device; s.levy_area_approximation = bm.levy_area_approximation
         def __call__(s, ta, tb=None, return_U=False, return_A=False):
             r = bm_l(ta, tb, return_U=return_U, return_A=return_A)
             cut = (lambda x: x[:, :mm] if x.dim() == 2 else x[:, :mm, :mm])
@@ -76,8 +79,28 @@ def scenario(task):
     # diagonal noise goes through misc.stable_division: the regular branch |g| > 1e-7 is the stated assumption
     imemo = {}
     conds = []
-    lqn = [dag.take_ite_true(x, conds, imemo)[0] for x in e1.flat_nodes(lq)]
+    pairs = []
+    lqn = [dag.take_ite_true(x, conds, imemo, pairs)[0] for x in e1.flat_nodes(lq)]
     regular = [dag.to_z3(cn, Zc.zenv, Zc.memo, []) for cn in conds]
+    # ... and the code's own guard must select the regular branch on the WHOLE stated domain |g| > 1e-7 (either sign):
+    # where(cond, g, ...) keeps the denominator g itself when cond holds, so (|g| > 1e-7 and not cond) must be unsatisfiable
+    import z3 as _z3
+    for cn, den in pairs[:4]:
+        zden = dag.to_z3(den, Zc.zenv, Zc.memo, [])
+        s_ = _z3.Solver(); s_.set('timeout', 30000)
+        s_.add(_z3.Or(zden > _z3.RealVal('1/10000000'), zden < -_z3.RealVal('1/10000000')), _z3.Not(dag.to_z3(cn, Zc.zenv, Zc.memo, [])))
+        from ..core import z3_check
+        r = z3_check(s_, 30000)
+        n += 1
+        if r == 'sat':
+            mdl = s_.model(); model = {}
+            for dcl in mdl.decls():
+                try:
+                    v = mdl[dcl]; model[dcl.name()] = float(Fraction(v.numerator_as_long(), v.denominator_as_long()))
+                except Exception:
+                    pass
+            bad.append(('the guard of stable_division rejects a denominator with |g| > 1e-7', 'sat', model))
+            break
     dt = lift(0.1)
     if mode == 'const':
         # f - h = g c  =>  increment = 1/2 |c|^2 (t_i - t_{i-1}) for every solver (full column rank assumed)
@@ -86,11 +109,12 @@ def scenario(task):
         for j in range(mm):
             half_c2 = dag._add(half_c2, dag._mul(cs[j], cs[j]))
         for i, node in enumerate(lqn):
-            want = lift(0.5) * half_c2 * lift(ts[i + 1] - ts[i])
+            ti = i // NB
+            want = lift(0.5) * half_c2 * lift(ts[ti + 1] - ts[ti])
             r, model = Zc.equal(node, want, assumptions=regular)
             n += 1
             if r != 'unsat':
-                bad.append((f'logqp[{i}] != 1/2 |c|^2 dt', r, model))
+                bad.append((f'logqp[{ti}]' + (f'[row {i % NB}]' if NB > 1 else '') + ' != 1/2 |c|^2 dt', r, model))
     elif method == 'euler':
         # Euler: increment over [t_{i-1}, t_i] (one step) = 1/2 |u(t_{i-1}, y_{i-1})|^2 dt, u = g^+ (f - h)
         for i, node in enumerate(lqn):
@@ -160,6 +184,9 @@ def tasks_for(tier):
     for nt in ('diagonal', 'scalar', 'additive', 'general'):
         d = 1 if nt in ('diagonal', 'general') else 2
         T.append(('ito', 'euler', nt, {}, d, 1 if nt in ('scalar', 'general') else 2, 'generic'))
+    # batch of two rows with different states: the increment of a row must not involve the other row
+    for nt in ('diagonal', 'scalar', 'general'):
+        T.append(('ito', 'euler', nt, {}, 2 if nt != 'diagonal' else 1, 1, 'const', 2))
     if not q:
         for st, method in (('stratonovich', 'midpoint'), ('stratonovich', 'heun'), ('ito', 'milstein'), ('stratonovich', 'reversible_heun')):
             for nt in ('diagonal', 'additive'):
@@ -178,7 +205,7 @@ def run(ctx):
     tasks = tasks_for(ctx.tier)
     tw = 0
     for t, (st_, res) in zip(tasks, pmap(scenario, tasks)):
-        name = f"{t[0]},{t[1]},{t[2]} d={t[4]} m={t[5]} {t[6]}"
+        name = f"{t[0]},{t[1]},{t[2]} d={t[4]} m={t[5]} {t[6]}" + (f" batch={t[7]}" if len(t) > 7 else "")
         if st_ != 'ok':
             ctx.inconc(name, str(res)[:500]); continue
         ctx.paths += 1; ctx.queries += res['queries']; ctx.solver_s += res['solver_s']; ctx.validated += 2
@@ -201,7 +228,8 @@ def run(ctx):
 def replay(data):
     import torchsde
     r = data['replay']
-    st, method, nt, opts, d, m, mode = r['task']
+    st, method, nt, opts, d, m, mode = r['task'][:7]
+    NB = r['task'][7] if len(r['task']) > 7 else 1
     mm = e1.noise_dim(nt, d, m)
     env = r.get('model') or {}
     ts = torch.tensor([0.0, 0.1, 0.2], dtype=torch.float64)
@@ -209,11 +237,11 @@ def replay(data):
     base = sdes.PolySDE(mk, st, nt, d=d, m=mm, degt=1, degy=1 if mode == 'const' else 2, with_h=True)
     c = mk('cc', (1, mm), values=0.4 - 0.3 * np.arange(mm).reshape(1, mm)) if mode == 'const' else None
     sde = WithPrior(base, c)
-    y0 = mk('y0', (1, d), values=0.6 + 0.1 * np.arange(d).reshape(1, d))
-    bm = torchsde.BrownianInterval(0., 0.2, size=(1, mm + (1 if nt == 'diagonal' else 0)), dtype=torch.float64, entropy=4, levy_area_approximation=sdes.levy_for(method))
+    y0 = mk('y0', (NB, d), values=0.6 + 0.1 * np.arange(NB * d).reshape(NB, d))
+    bm = torchsde.BrownianInterval(0., 0.2, size=(NB, mm + (1 if nt == 'diagonal' else 0)), dtype=torch.float64, entropy=4, levy_area_approximation=sdes.levy_for(method))
     ys, lq = torchsde.sdeint(sde, y0, ts, bm=bm, method=method, dt=0.1, options=dict(opts), logqp=True)
     bad = []
-    if tuple(lq.shape) != (2, 1): bad.append(f'shape {tuple(lq.shape)}')
+    if tuple(lq.shape) != (2, NB): bad.append(f'shape {tuple(lq.shape)}')
     if float(lq.min()) < -1e-12: bad.append(f'negative increment {float(lq.min())}')
     if mode == 'const':
         want = 0.5 * float((c ** 2).sum()) * 0.1
